@@ -1,9 +1,11 @@
-from vlib import Obl, Prog
+from vlib import Obl, Prog, borrow
 
 def obligations(tier):
     nmax = 12 if tier == "quick" else 20
     send = Prog("qmail-send.c", nomain=True)
-    return [
+    # due-time gate, flagdying, expired-Z handling, restart schedule: qmail-send transitions shared with C03
+    shared = borrow("C03", ["pass_dochan", "pqadd", "del_dochan"], tier)
+    return shared + [
         Obl("sqrt_exact", "sqrt.c", progs=[send], backend="kissat", witness_mode="twin",
             unwind={"squareroot": 17}, timeout=900,
             functions=["qmail-send.c:squareroot"],
@@ -12,7 +14,7 @@ def obligations(tier):
             claim="squareroot(x)^2 <= x < (squareroot(x)+1)^2 for every x in 0..2^32-1, no signed overflow or bad shift",
             expect_witnesses=["max_age", "zero_age"]),
         Obl("nextretry", "nextretry.c", progs=[Prog("qmail-send.c", nomain=True, cut=["squareroot"])],
-            backend="kissat", witness_mode="twin", timeout=900,
+            backend="kissat", witness_mode="twin", timeout=1800, grid=[{"CHAN": 0}, {"CHAN": 1}],
             functions=["qmail-send.c:nextretry"],
             cuts=["squareroot -> contract result^2 <= x < (result+1)^2, proved by obligation sqrt_exact in the same run"],
             assumes=["0 <= birth, now < 2^40; age < 2^32"],
